@@ -7,7 +7,7 @@ use crate::mapdrv::{pick_plan, MapDrv, W_ENTRY, W_GENERAL};
 use crate::plan::PlanBH;
 use crate::util::{Json, Rng};
 
-pub const C01_PAIRS: [&str; 8] = ["P8xP8", "T24xT24", "L200xB1", "A64xP8", "B1xB1", "B3xB1", "P8xT24", "B6xZ"];
+pub const C01_PAIRS: [&str; 11] = ["P8xP8", "T24xT24", "L200xB1", "A64xP8", "B1xB1", "B3xB1", "P8xT24", "B6xZ", "L600xB1", "P8xL600", "B1xL4K"];
 
 /// The `Copy`-only and default-hasher-only construction paths: `Extend<(&K, &V)>`, `Extend<&(K, V)>`,
 /// `From<[(K, V); N]>`, `HashSet: Extend<&T>` / `From<[T; N]>`, compared with a BTreeMap.
@@ -95,16 +95,23 @@ fn copy_paths(c: &mut Ctx, rng: &mut Rng) {
     c.sig_parts(&[0xc0b1, crate::ctx::prop_salt(&plan.name())]);
 }
 
-/// Tables of 2^18..2^20 buckets holding a few dozen elements: code paths gated on the table size
+/// Tables of 2^18..2^20 (one time in four: 2^21..2^26) buckets holding a few dozen elements: code paths gated on the table size
 /// (and the wrap-around at the end of a very large table) are reached without needing many elements.
 fn huge_scenario<K: Elem, V: Elem>(c: &mut Ctx, rng: &mut Rng) {
     use crate::mapdrv::W_HUGE;
     use crate::plan::Plan;
-    let lg = *rng.pick(&[18u32, 18, 19, 20]);
+    let mut lg = if rng.chance(1, 4) { *rng.pick(&[21u32, 22, 23, 23, 24, 24, 25, 26]) } else { *rng.pick(&[18u32, 18, 19, 20]) };
+    // the element area is never touched beyond the few slots in use, but it must fit the allocator's hard cap
+    while (std::mem::size_of::<(K, V)>().max(1) + 1) << lg > (3usize << 30) {
+        lg -= 1;
+    }
     let cap = (1usize << lg) / 8 * 7;
     let plan = *rng.pick(&[Plan::Tail, Plan::Tail, Plan::Max, Plan::Mixed, Plan::Ident, Plan::Stride, Plan::SamePos]);
     let mut d: MapDrv<K, V> = MapDrv::new(PlanBH::new(plan, rng.next()), 64, cap);
     d.max_live = 48;
+    // a full structure walk costs O(buckets): every call below 2^22 buckets, every second / third call above
+    d.validate_every = if lg >= 25 { 3 } else if lg >= 22 { 2 } else { 1 };
+    c.max("max_buckets_log2_huge", lg as u64);
     let mut desc = d.describe("C01 very large sparse table");
     desc.set("buckets_log2", Json::i(lg));
     c.describe(desc);
